@@ -37,6 +37,8 @@ fn main() {
         "prog" => supervise("prog-child"),
         "prog-child" => prog(false),
         "ast" => prog(true),
+        "hist" => supervise("hist-child"),
+        "hist-child" => hist(),
         _ => {
             eprintln!("c13: unknown mode");
             std::process::exit(2)
@@ -201,6 +203,43 @@ fn unit() {
         let r = catch_unwind(AssertUnwindSafe(|| unit_case(&def, &form)));
         match r {
             Ok(s) => println!("{}", s.replace('\n', " ")),
+            Err(_) => println!("panic"),
+        }
+        std::io::stdout().flush().ok();
+    }
+}
+
+/// histories: the pieces of a line (separator ` ;;;--- `) are evaluated one after the other on ONE engine and the
+/// history goes on after a piece that raised an error; output = the results of all pieces joined by ` | `.
+fn hist() {
+    if let Ok(d) = std::env::var("C13_MODDIR") {
+        let _ = std::env::set_current_dir(d);
+    }
+    let stdin = std::io::stdin();
+    for line in stdin.lock().lines() {
+        let line = line.unwrap();
+        let pieces: Vec<String> = line.split(" ;;;--- ").map(|s| s.to_string()).collect();
+        let r = catch_unwind(AssertUnwindSafe(|| {
+            let mut engine = Engine::new();
+            let mut outs: Vec<String> = Vec::new();
+            for p in pieces.iter() {
+                let one = catch_unwind(AssertUnwindSafe(|| match engine.compile_and_run_raw_program(p.clone()) {
+                    Ok(vals) => {
+                        let s: Vec<String> = vals
+                            .iter()
+                            .map(|v| format!("{}", v))
+                            .filter(|s| s != "#<void>")
+                            .collect();
+                        format!("ok {}", s.last().cloned().unwrap_or_default())
+                    }
+                    Err(e) => format!("err {}", err_kind(&format!("{}", e))),
+                }));
+                outs.push(one.unwrap_or_else(|_| "panic".to_string()));
+            }
+            outs.join(" | ")
+        }));
+        match r {
+            Ok(s) => println!("{}", s.replace('\n', " ").trim_end()),
             Err(_) => println!("panic"),
         }
         std::io::stdout().flush().ok();
